@@ -40,6 +40,8 @@ def obligations(tier):
         v("stack", "arm::TailCall", "a tail call leaves the running frame first (the frame list shrinks) and moves the new function and its arguments down onto the slot of the returning function: nothing of the finished call remains on the stack (constant stack); pending excess arguments are appended to the call", "vm/src/thread.rs::execute_ arm TailCall"),
         dict(engine="verus", unit="clone", function="Gc::new_child_gc(limit)", name="C07/gc/new_child_gc_inherits_limit", source="vm/src/gc.rs::Gc::new_child_gc",
              clause="the collector of a spawned thread gets its spawner's memory limit: spawning is no way around the limit"),
+        dict(engine="verus", unit="newthread", function="Thread::new_thread::construct(C07)", name="C07/thread/new_thread_inherits_stack_limit", source="vm/src/thread.rs::Thread::new_thread (up to the allocation of the new thread)",
+             clause="a spawned thread runs under the stack limit of the thread that spawned it"),
         dict(engine="verus", unit="toplevel", function="execute::loop_head", name="C07/thread/execute_loop_polls_interrupt", source="vm/src/thread.rs::OwnedContext::execute (loop body up to the dispatch on the frame state)",
              clause="every pass through the frame loop -- every call, tail call and return -- polls the interrupt flag before dispatching: requested => Err(Interrupted), not requested => the dispatch is reached"),
         v("stack", "ExecuteContext::exit_scope", "leaving a scope pops exactly the top frame, never a locked one", "vm/src/thread.rs::ExecuteContext::exit_scope"),
